@@ -8,6 +8,10 @@ def plan(tier):
          inst("moebius-image[affine maps z -> a z + b]", 'harness.c20', 'moebius', dict(kind='affine'), weight=10, timeout_s=900),
          inst("relations[bounded x bounded, elementwise]", 'harness.c20', 'relations', dict(broadcast="elementwise"), weight=40, timeout_s=900),
          inst("relations[bounded x bounded, pairwise]", 'harness.c20', 'relations', dict(broadcast="pairwise"), weight=40, timeout_s=900)]
+    for ua, ub in ((False, True), (True, False), (True, True)):
+        nm = f"{'unbounded' if ua else 'bounded'} x {'unbounded' if ub else 'bounded'}"
+        for bc in ("elementwise", "pairwise"):
+            I.append(inst(f"relations[{nm}, {bc}]", 'harness.c20', 'relations_any', dict(broadcast=bc, ua=ua, ub=ub), weight=40, timeout_s=900))
     if not q:
         I.append(inst("moebius-image[z -> 1/(z+t)]", 'harness.c20', 'moebius', dict(kind='inversion'), weight=400, timeout_s=1500))
         I.append(inst("moebius-image[general 2x2]", 'harness.c20', 'moebius', dict(kind='general'), weight=600, timeout_s=1500))
@@ -17,11 +21,11 @@ def plan(tier):
                      "projective_to_spherical are mutually inverse on the unit sphere (rational parametrisation, both charts by forking on z > 0) and agree with "
                      "stereographic projection; CP1Disk(c, r) reports centre c and radius r and an interior point inside; T @ disk for symbolic affine Moebius "
                      "maps (after a prior circle query on the original disk): image boundary points lie on the reported circle and all four defining points are "
-                     "mapped by the matrix; contains / intersects of two bounded disks (elementwise and pairwise) agree with |c1-c2| < r1-r2 resp. < r1+r2.  "
+                     "mapped by the matrix; contains / intersects (elementwise and pairwise) agree with the set-theoretic answer in terms of |c1-c2|, r1, r2 for all four combinations of bounded disks and disks containing infinity (the latter given by three boundary points and an interior point outside the circle).  "
                      "utils.c_to_r (astype('complex').view) is replaced by its two-line meaning in symbolic mode (stated cut)"),
         bounds=dict(disks="bounded disks, affine radius metric; relations with the first centre at a concrete point and all other data symbolic", maps="z -> a z + b (quick); 1/(z+t) and general 2x2 attempted in thorough"),
         outside=["Fubini-Study construction (np.linalg.qr), fs_center / fs_diameter (arctan / tan of symbolic lengths)",
-                 "complement / inversion and therefore every disk containing infinity (np.emath.sqrt of a symbolic complex number): the three unbounded cases of contains / intersects are not claimed",
+                 "complement / inversion (np.emath.sqrt of a symbolic complex number): disks containing infinity are built from their four defining points instead",
                  "side of the image interior point for non-affine maps"],
         assumptions=["radius > 0; non-tangent position for the relation tests; image boundary points finite"],
     )
